@@ -9,6 +9,7 @@ def dispatch (op : String) (payload : Json) : R Json :=
   | "unbind" => C04.handleUnbind payload
   | "results" => C03.handle payload
   | "analyse_fn" => Visit.handle payload
+  | "analyse_callable" => Callable.handle payload
   | "cli_merge" => C20.handle payload
   | "names" => C10.handle payload
   | "naming_sites" => C10.handleSites payload
